@@ -201,7 +201,7 @@ Proof.
 Qed.
 
 Theorem refines : forall tr ops s' rs, run_ok (init tr) ops -> run (init tr) ops = (s', rs) ->
-  spec_trace (mkA [] (-1) 0 tr) ops rs (abs s') /\ nact_ok (abs s').
+  spec_trace (mkA tr [] (-1) 0 tr) ops rs (abs s') /\ nact_ok (abs s').
 Proof.
   intros tr ops s' rs Hok E. apply run_refines in E; auto; [|apply init_inv].
   destruct E as ([_ N] & _ & T). split; auto.
